@@ -12,8 +12,8 @@ VERIF = os.path.dirname(os.path.dirname(os.path.dirname(os.path.abspath(__file__
 CORPUS = os.path.join(VERIF, "corpus", "C13")
 CANDIDATE_FINDINGS = ("C13-alloc-io-nonpow2", "C13-decoder-subword")
 
-QUICK = {"bus": 12000, "loc": 4000, "cm": 2500, "dec": 1500, "hw": 24}
-THOROUGH = {"bus": 150000, "loc": 40000, "cm": 30000, "dec": 20000, "hw": 400}
+QUICK = {"bus": 12000, "loc": 4000, "cm": 2500, "dec": 1500, "banks": 240, "hw": 24}
+THOROUGH = {"bus": 150000, "loc": 40000, "cm": 30000, "dec": 20000, "banks": 4000, "hw": 400}
 CHUNK = 250
 
 
@@ -41,6 +41,8 @@ def procs():
 
 
 def model_norm(kind, ans):
+    if kind == "banks":
+        return "rej" if ans.startswith("rej:") else ans
     return L.strip_errs(ans) if kind in ("bus", "loc") else ans
 
 
@@ -88,6 +90,15 @@ def _hist(ctx, rec, model):
         cov.count("cm.via_GenericPlatform" if rec["input"].get("plat") else "cm.direct_manager")
         for w in model.split(" # ")[0].split():
             cov.count("cm.out." + w.split(":")[0] + (":" + w.split(":")[1] if w.startswith("err") else ""))
+    elif k == "banks":
+        inp = rec["input"]
+        cov.count("banks.finalize." + ("ok" if model.startswith("ok") else model))
+        cov.count("banks.csr_dw=%d,paging=0x%x" % (inp["csr_dw"], inp["paging"]))
+        cap = inp["paging"] // 4
+        for kk, loc, regs in inp["banks"]:
+            ns = L.banks_nsimple(inp["csr_dw"], regs)
+            cov.count("banks.nsimple " + ("< cap-1" if ns < cap - 1 else "= cap-1" if ns == cap - 1 else "= cap" if ns == cap
+                                          else "= cap+1" if ns == cap + 1 else "> cap+1"))
     elif k == "dec":
         cov.count("dec.unaligned" if model == "u" else "dec.aligned")
         cov.count("dec.exhaustive" if rec["input"]["addrs"] == "all" else "dec.boundaries")
@@ -223,11 +234,12 @@ def correspond(ctx):
     nc = run_corpus(ctx, dis, stats)
     ctx.cov.add_cases("corpus witnesses", nc, nc, True)
     tasks = []
-    for kind in ("bus", "loc", "cm", "dec"):
+    for kind in ("banks", "bus", "loc", "cm", "dec"):
         n = plan[kind]
+        chunk = 40 if kind == "banks" else CHUNK
         while n > 0:
-            tasks.append((kind, ctx.rng.getrandbits(48), min(CHUNK, n), known))
-            n -= CHUNK
+            tasks.append((kind, ctx.rng.getrandbits(48), min(chunk, n), known))
+            n -= chunk
     per_kind = {k: [0, 0] for k in plan}
     first = {}
     t0 = time.time()
@@ -248,8 +260,9 @@ def correspond(ctx):
     names = {"bus": "SoCBusHandler histories (add_region/alloc/add_slave/add_master/io check/finalize)",
              "loc": "SoCCSRHandler/SoCIRQHandler histories (add/alloc/address_map/enable)",
              "cm": "ConstraintManager histories (request/request_all/request_remaining/lookup/add_extension)",
-             "dec": "SoCRegion.decoder instances (exhaustive for toy widths, boundaries +-1 else)"}
-    for k in ("bus", "loc", "cm", "dec"):
+             "dec": "SoCRegion.decoder instances (exhaustive for toy widths, boundaries +-1 else)",
+             "banks": "real SoCMini(...).finalize() with CSR banks around the page capacity (csr width 8/32, paging 0x400-0x1000)"}
+    for k in ("bus", "loc", "cm", "dec", "banks"):
         ctx.cov.add_cases(names[k], per_kind[k][0], per_kind[k][1], False)
     ctx.cov.count("decoder_bitstrings_compared", stats["dec_cmp"])
     ctx.log("histories: %d in %.1fs (%s), %d decoder bit-strings compared" % (
@@ -272,6 +285,18 @@ def correspond(ctx):
 # ------------------------------------------------------------------------------------------------------------
 def shrink(inp, known):
     """Delta-debug a failing history: drop operations while the oracle still fires."""
+    if inp["kind"] == "banks":
+        cur = dict(inp)
+        changed = True
+        while changed and len(cur["banks"]) > 1:
+            changed = False
+            for i in range(len(cur["banks"])):
+                cand = dict(cur)
+                cand["banks"] = cur["banks"][:i] + cur["banks"][i + 1:]
+                if L.rerun_input(cand, known)[2]:
+                    cur, changed = cand, True
+                    break
+        return cur
     if inp["kind"] not in ("bus", "loc", "cm"):
         return inp
     cur = dict(inp)
